@@ -7,6 +7,8 @@ import Mfi.Model.Integr
 import Mfi.Lemmas.FxL
 import Mfi.Gen.Oracles
 import Mfi.Lemmas.ConstL
+import Mfi.Lemmas.AccL
+import Mfi.Props.C08
 
 namespace Mfi.Props.C20
 open Mfi Mfi.Fx Mfi.Integr
@@ -346,5 +348,31 @@ theorem adjusted_price_can_exceed_exact :
     constants on every run; the model computes its own powers of ten and is diffed against the real functions across
     ALL 24 decimals) -/
 theorem scaling_table_is_powers_of_ten : Mfi.Gen.EXP_10_I80F48 = Mfi.Fx.POW10FX := Mfi.ConstL.exp10_table_exact
+
+/-- **a Solend reserve that was not refreshed in the current slot is refused at the door**: both Solend instructions carry
+    the constraint `!reserve.is_stale()?` (the slot comparison of `solendStale`, diffed by the integr family) on the
+    reserve account — regenerated constraint table; the Kamino and Drift instructions refresh through the venue's own
+    CPI, their oracle arms test freshness themselves (C09.venue_fresh) -/
+theorem solend_reserve_fresh_at_the_door :
+    Mfi.Gen.Acc.hasCons .SolendDeposit .f_integration_acc_1 (.venueFresh .f_integration_acc_1) = true ∧
+    Mfi.Gen.Acc.hasCons .SolendWithdraw .f_integration_acc_1 (.venueFresh .f_integration_acc_1) = true := by decide
+
+/-- the venue bindings of the Kamino / Solend / Drift instructions (reserve / market mint = bank mint, obligation and spot-position checks, venue program ownership) have no recognised kind in the generated constraint table; their text is pinned by fingerprint
+    (C08.unclassified_constraints_pinned), so an edit of any of them breaks an obligation of this property too -/
+theorem unclassified_constraints_pinned :
+    Mfi.Gen.Acc.otherFingerprints =
+      [(.LendingPoolAddBankKamino, .f_integration_acc_1, 1294895318964715725), (.KaminoDeposit, .f_integration_acc_2, 102789841884831255),
+       (.KaminoDeposit, .f_integration_acc_2, 2232305478470895852), (.KaminoWithdraw, .f_integration_acc_2, 2232305478470895852),
+       (.KaminoWithdraw, .f_integration_acc_2, 102789841884831255), (.LendingAccountSettleEmissions, .f_marginfi_account, 1925430640847475726),
+       (.EndDeleverage, .f_liquidation_record, 800305038196698214), (.LendingPoolAddBankSolend, .f_integration_acc_1, 1481642461694787521),
+       (.SolendDeposit, .f_integration_acc_2, 1332785733999453949), (.SolendWithdraw, .f_integration_acc_2, 1332785733999453949),
+       (.LendingPoolUpdateFeesDestinationAccount, .f_destination_account, 2287509815940661847), (.LendingPoolWithdrawFeesPermissionless, .f_fees_destination_account, 442390752958412362),
+       (.PropagateStakedSettings, .f_bank, 192467567798966075), (.LendingPoolAddBankDrift, .f_integration_acc_1, 778144333709451630),
+       (.DriftDeposit, .f_integration_acc_2, 3003145849582993), (.DriftDeposit, .f_integration_acc_1, 1555694171009604275),
+       (.DriftHarvestReward, .f_integration_acc_2, 522844572761367543), (.DriftHarvestReward, .f_harvest_drift_spot_market, 1082706562961323273),
+       (.DriftHarvestReward, .f_harvest_drift_spot_market, 2159362736921184234), (.DriftWithdraw, .f_integration_acc_2, 3003145849582993),
+       (.DriftWithdraw, .f_integration_acc_2, 471323873936025127), (.DriftWithdraw, .f_integration_acc_2, 1377500195096470279),
+       (.DriftWithdraw, .f_integration_acc_1, 1555694171009604275)] :=
+  Mfi.Props.C08.unclassified_constraints_pinned
 
 end Mfi.Props.C20
